@@ -1267,7 +1267,9 @@ class DriverOracles(WalkOracles):
                     eaten.add(o)
             it.write(me.cell, me.path + (("f", fi),), SetV(avail - eaten, comp.fields[fi].nbits))
             if self.graph_route:
-                return Tup([Opaque("DnaString", {"seq:%d" % i}), exts_sym("n%d" % i), DequeV([]), Opaque("D", {"data"}, {"fold": ("n%d" % i,)})])
+                # the returned node path lists the seed and everything the walks consumed (seed first here; the orientations are the builder's)
+                npath = DequeV([Tup([Int(64, False, val=x), dir_v(LEFT)]) for x in [i] + sorted(eaten - {i})])
+                return Tup([Opaque("DnaString", {"seq:%d" % i}), exts_sym("n%d" % i), npath, Opaque("D", {"data"}, {"fold": ("n%d" % i,)})])
             er = args[3]
             it.write(er.cell, er.path, DequeV([Int(8, False, val=100 + i)]))
             return Tup([exts_sym("n%d" % i), Opaque("D", {"data"}, {"fold": ("n%d" % i,)})])
